@@ -69,8 +69,11 @@ fn decoder_outputs_prefix(enc: &str, chunks: &[Vec<u8>]) -> (Vec<Vec<u8>>, ()) {
 
 fn gen(args: &Args, emit: &mut dyn FnMut(Value)) {
     let mut rng = seeded(args.seed);
-    // deterministic boundary families (long held tails, long buffers, many siblings): in EVERY run
-    for bc in boundary_cases() {
+    // diff-directed hints first (empty on the unchanged tree), then the deterministic boundary families
+    // (long held tails, long buffers, many siblings): in EVERY run
+    let hs = hints();
+    let hinted = if hs.is_empty() { Vec::new() } else { hint_cases_html(&hs) };
+    for bc in hinted.into_iter().chain(boundary_cases()) {
         emit(json!({"body": hex(&bc.body), "filters": bc.filters.iter().map(|f| f.to_json()).collect::<Vec<_>>(), "headers": [], "scheds": scheds_json(&bc.scheds), "shape": bc.shape}));
     }
     for n in 0..args.n {
